@@ -356,6 +356,26 @@ var adversarial = []string{
 	"0 NOTE a\ncontinued\n\n1 X y\nmore\n", "text first\n0 A\n", "\n0 A\n\nmore\n\n", "0 @I1@ INDI\nfree\n1 NAME x\n", "0 @F@ FAM\nglued\n",
 }
 
+func init() {
+	// level numbers around the points where a hand-written digit accumulator wraps (2^63, 2^64, 2^32)
+	for _, lv := range []string{"9999999999999999999", "18446744073709551615", "18446744073709551616", "18446744073709551617",
+		"9223372036854775807", "9223372036854775808", "4294967296", "2147483648"} {
+		adversarial = append(adversarial, "0 A\n"+lv+" X\n", "0 A\n1 B\n"+lv+" X y\n2 C\n")
+	}
+	// lines around the buffer sizes of bufio (4096) and of a default Scanner token (65536), followed by further lines:
+	// nothing may be cut and nothing after the long line may be lost
+	for _, n := range []int{4080, 4089, 4090, 4096, 4100, 8200} {
+		adversarial = append(adversarial, "0 HEAD\n1 NOTE "+strings.Repeat("x", n)+"\n2 CONT y\n1 X z\n0 TRLR\n")
+	}
+	// descents past level 99 and 100 (three-digit levels) and back: the normal form must survive re-encoding
+	deep := ""
+	for k := 0; k <= 103; k++ {
+		deep += fmt.Sprintf("%d A%d v\n", k, k%7)
+	}
+	adversarial = append(adversarial, deep+"50 B\n100 C\n0 D\n", deep+"104 E\n99 F\n100 G\n101 H\n")
+	adversarial = append(adversarial, "0 HEAD\r1 NOTE "+strings.Repeat("ab ", 1400)+"\r\n1 X z\n0 "+strings.Repeat("T", 4200)+"\n1 Y\n")
+}
+
 func genInput(rng *rand.Rand, i int) []byte {
 	if i < len(adversarial)*2 {
 		s := []byte(adversarial[i/2])
